@@ -149,7 +149,12 @@ class _FlagsFetchValue(DynamicFetchValue):
 
     def get_value(self) -> MaybeBytes:
         session_flags = self.selected.session_flags
-        flag_set = self.message.get_flags(session_flags)
+        message = self.message
+        if not message.expunged:
+            # the flags as they were synchronized with this session, which
+            # may already include a later change by another session
+            message = self.selected.messages.get(message.uid) or message
+        flag_set = message.get_flags(session_flags)
         return List(flag_set, sort=True)
 
 
